@@ -439,6 +439,12 @@ ReadableEv ==
                           /\ Len(ev.readable) = Len(ev.rows)
                           /\ \A r \in 1..Len(ev.rows) : ReadableMatches(ev.readable[r], ev.rows[r])>>,
                         <<"C09", "from_numpy_roundtrip", Len(ev.roundtrip_diff) = 0 /\ ev.shape_ok>>,
+                        <<"C09", "readable_of_live_state_equals_decoded",
+                          "live_equal" \in DOMAIN ev => ev.live_equal>>,
+                        <<"C04", "reading_leaves_state_alone",
+                          "live_unchanged" \in DOMAIN ev => ev.live_unchanged>>,
+                        <<"C09", "flat_is_row_major_whatever_memory_order",
+                          "flat_any_order" \in DOMAIN ev => ev.flat_any_order>>,
                         <<"C09", "aux_readable",
                           ev.what = "obs" =>
                              /\ ev.aux_readable.success = (ev.aux[1] # 0) /\ ev.aux_readable.conn = (ev.aux[2] # 0)
